@@ -37,6 +37,10 @@ def lower(run, work):
     flags = [f for f in flags if not (run.opt and f == '-O1')] + (['-' + run.opt] if run.opt else [])
     if run.shared_points: flags.append('-gline-tables-only')   # line tables tell library code from harness bookkeeping
     r = sh([CLANG] + flags + [src, '-o', ll])
+    if r.returncode != 0 and not run.exc and 'exceptions disabled' in r.stderr:
+        # the library under test uses try/catch/throw on this tree: lower with exceptions enabled instead (the engine executes invoke/landingpad)
+        flags = [('-fexceptions' if f == '-fno-exceptions' else f) for f in flags]
+        r = sh([CLANG] + flags + [src, '-o', ll])
     if r.returncode != 0:
         raise RuntimeError('lowering failed for %s:\n%s' % (run.name, r.stderr[-3000:]))
     sup = os.path.join(work, 'stdsupport.ll')
